@@ -161,6 +161,23 @@ def same_outcome(a, b):
 
 
 def check_case(case, acc):
+    level = case.get("maxlevel") if isinstance(case, dict) else None
+    if isinstance(level, float) and level != int(level) and "read_as" not in case:
+        # a maxlevel that is not a whole number: no reading is prescribed, but the search functions follow ONE reading in all
+        # their forms, and it is the reading of the iterators (compared with the breadth-first iterator, whose code is another)
+        import math
+
+        first = None
+        for reading in (math.floor(level), math.ceil(level)):
+            try:
+                return _check_case(dict(case, read_as=reading), acc)
+            except Violation as exc:
+                first = first or exc
+        raise Violation(first.clause, "maxlevel=%r read as %d and as %d: %s" % (level, math.floor(level), math.ceil(level), first.detail))
+    return _check_case(case, acc)
+
+
+def _check_case(case, acc):
     tree = build(case)
     labels = forest.Labels(tree)
     _once(case, acc, tree, labels)
@@ -179,8 +196,13 @@ def _once(case, acc, tree, labels):
     _yes, _no = c06.TRUTH_STYLES[case.get("truth", 0) % 4]  # predicates are judged by truth value only
     stop = (lambda n: _yes if id(n) in stop_ids else _no) if case["stop"] else None
     filter_ = (lambda n: _yes if id(n) not in hide_ids else _no) if case["hide"] else None
-    admitted = refs.admitted_ids(start, stop_ids, maxlevel)
+    admitted = refs.admitted_ids(start, stop_ids, case.get("read_as", maxlevel))
     expected = refs.restricted(refs.preorder(start), admitted, hide_ids)
+    if "read_as" in case:
+        level_set = {id(n) for n in anytree.LevelOrderIter(start, filter_=filter_, stop=stop, maxlevel=maxlevel)}
+        if level_set != {id(n) for n in expected}:
+            raise Violation("findall-result", "maxlevel=%r read as %r: the breadth-first iterator admits %d nodes, this reading %d" % (maxlevel, case["read_as"], len(level_set), len(expected)))
+        acc.tag("maxlevel_not_a_whole_number")
     c = len(expected)
     bounds = [None, 0, c - 1, c, c + 1]
     bounds = [b for i, b in enumerate(bounds) if b is None or (b >= 0 and b not in bounds[:i])]
@@ -317,7 +339,7 @@ def _once(case, acc, tree, labels):
 
     # by attribute
     name, value = case["by"]["name"], val(case["by"]["value"])
-    region = refs.restricted(refs.preorder(start), refs.admitted_ids(start, set(), maxlevel), set())
+    region = refs.restricted(refs.preorder(start), refs.admitted_ids(start, set(), case.get("read_as", maxlevel)), set())
     lacking = 0
     exp_attr = []
     for node in region:
@@ -390,7 +412,7 @@ def random_cases(draw, max_nodes=20):
         "start": draw(st.one_of(st.just(0), st.integers(0, size - 1))),
         "stop": draw(strategies.subsets_of(size, max_size=2)),
         "hide": draw(strategies.subsets_of(size, max_size=size)),
-        "maxlevel": draw(st.one_of(st.none(), st.none(), st.integers(0, 5))),
+        "maxlevel": draw(st.one_of(st.none(), st.none(), st.integers(0, 5), st.integers(0, 5), st.sampled_from([0.5, 1.5, 2.5, 3.5]))),
         "truth": draw(st.integers(0, 3)),
         "by": draw(st.one_of(
             st.fixed_dictionaries({"name": st.sampled_from(ATTR_NAMES), "value": st.sampled_from(VALUES)}),
@@ -410,7 +432,7 @@ def _enum_cases(max_nodes, index, count):
         size = shapes.shape_size(shape)
         for pat in patterns:
             for start in range(size):
-                for maxlevel in (None, 0, 1, 2):
+                for maxlevel in (None, 0, 1, 2, 1.5):
                     for value in (1, "1", None):
                         k += 1
                         if k % count != index:
